@@ -268,6 +268,19 @@ X14_Recipient(s, e, t) ==
   /\ (e.name = "TransferNFT" /\ e.ok /\ HasNFT(t, e.cls, e.id)) => t.nft[e.cls][e.id].owner = e.to
   /\ (e.name = "TransferDenom" /\ e.ok /\ HasClass(t, e.cls)) => t.cls[e.cls].creator = e.to
 X14_Collection(t) == t.coll = t.nft
+(* read-back fidelity (C14 does not state it): every metadata field of a mint
+   is stored as submitted — name, uri, uri hash and data —, an edit / transfer
+   sets exactly the fields that are not the sentinel, a class is stored with the
+   submitted creator, flags and metadata (all seven class fields, see harness) *)
+X14_Fidelity(s, e, t) ==
+  /\ (e.name = "MintNFT" /\ e.ok /\ HasNFT(t, e.cls, e.id)) =>
+       Meta(t.nft[e.cls][e.id]) = [n |-> e.n, u |-> e.u, h |-> e.h, d |-> e.d]
+  /\ (e.name \in {"EditNFT", "TransferNFT"} /\ e.ok /\ HasNFT(s, e.cls, e.id) /\ HasNFT(t, e.cls, e.id)) =>
+       LET a == s.nft[e.cls][e.id] IN
+       Meta(t.nft[e.cls][e.id]) = [n |-> Modify(a.n, e.n), u |-> Modify(a.u, e.u),
+                                   h |-> Modify(a.h, e.h), d |-> Modify(a.d, e.d)]
+  /\ (e.name = "IssueDenom" /\ e.ok /\ HasClass(t, e.cls)) =>
+       t.cls[e.cls] = [creator |-> e.who, mintR |-> e.mintR, updateR |-> e.updateR, meta |-> e.cmeta]
 
 -----------------------------------------------------------------------------
 (* Model-checking universe *)
@@ -344,6 +357,7 @@ Act_C14_ClassHandover == [][C14_ClassHandover(st, ev', st')]_vars
 Act_C14_Ids == [][C14_Ids(st, ev', st')]_vars
 Act_Rejected_NoEffect == [][Rejected_NoEffect(st, ev', st')]_vars
 Act_X14_Recipient == [][X14_Recipient(st, ev', st')]_vars
+Act_X14_Fidelity == [][X14_Fidelity(st, ev', st')]_vars
 
 (* the last event and the ghosts are functions of the path, not of the state *)
 View == st
